@@ -117,9 +117,13 @@ def layer_params(draw, cls, cin, geom):
   """Options of one folded layer other than geometry."""
   st = _st()
   cout = cout_of(cls, cin, geom["out"])
-  kqn = draw(st.sampled_from(["none", "none", "fixed4", "fixed8", "auto_po2",
-                              "auto", "ternary", "po2"]))
-  bqn = draw(st.sampled_from(["none", "none", "fixed8", "fixed16"]))
+  if draw(st.integers(0, 4)) < 2:       # 40%: the pure float oracle (a)
+    kqn = bqn = "none"
+  else:
+    kqn = draw(st.sampled_from(["fixed4", "fixed8", "auto_po2", "auto",
+                                "ternary", "po2", "none"]))
+    bqn = draw(st.sampled_from(["none", "fixed8", "fixed16"] if kqn != "none"
+                               else ["fixed8", "fixed16"]))
   return {
       "mode": draw(st.sampled_from(MODES)),
       "use_bias": draw(st.booleans()),
@@ -186,7 +190,8 @@ def lattice_cases(tier):
           "beta": rot(BETA, 1),
           "mean": [MEAN[(4 + idx + i) % len(MEAN)] for i in range(cout)],
           "var": [VAR[(1 + idx + i) % len(VAR)] for i in range(cout)]}
-    out.append({"kind": "layer", "cls": cls, "geom": g, "act": None,
+    out.append({"kind": "layer", "cls": cls, "geom": g,
+                "act": "relu" if idx % 5 == 3 else None,
                 "xscale": 1.0, "mode": mode, "use_bias": ub, "center": center,
                 "scale": scale, "eps": EPS[idx % len(EPS)],
                 "efd": [None, 5][idx % 2], "kq": KQ[kqn], "bq": BQ[bqn],
@@ -281,7 +286,12 @@ def model_case_strategy(kind, tier):
     dag = _Dag(h, w, c)
     tmpl = draw(st.sampled_from(["seq", "seq", "branch", "shared"]))
     if tmpl == "seq":
-      o, _, _ = _draw_conv(draw, dag, "in", kind)
+      src = "in"
+      if kind == "unfold" and draw(st.booleans()):
+        # stock conv (+BN) in front: unfold_model must carry their weights over
+        src, _, _ = _draw_conv(draw, dag, "in", "quantize",
+                               with_bn=draw(st.booleans()))
+      o, _, _ = _draw_conv(draw, dag, src, kind)
       if draw(st.booleans()):
         o = _relu(dag, o)
       if draw(st.booleans()) and min(dag.shape[o][:2]) >= 1:
@@ -393,7 +403,8 @@ def fixed_model_cases():
   out = []
   for m1, m2 in ((MODES[0], MODES[1]), (MODES[1], MODES[0])):
     out.append(dict(head, kind="unfold", outputs=["f3"], nodes=[
-        fl("f1", "fconv", "in", 3, m1, KQ["fixed4"], BQ["fixed8"], wseed=3),
+        cv("c0", "conv", "in", 2, wseed=2), bn("b0", "c0", eps=1e-2),
+        fl("f1", "fconv", "b0", 3, m1, KQ["fixed4"], BQ["fixed8"], wseed=3),
         relu("r2", "f1"),
         fl("f3", "fdw", "r2", 2, m2, KQ["fixed8"], None, use_bias=False,
            pad="valid", wseed=4)]))
